@@ -208,7 +208,27 @@ def check(run):
 
 
 def history(run, prog, w):
-    """serialise, change a value the outer containers cannot see, serialise again: the second result must be that of an equal fresh stack"""
+    """serialise, change a value the outer containers cannot see, serialise again: the second result must be that of an equal fresh stack;
+    and: parsing one stack must not influence what parsing another stack returns"""
+    ser0, des0 = prog.method('VmStack', 'serialize'), prog.method('VmStack', 'deserialize')
+    it = Interp(prog)
+    VT0 = prog.cls('VmTuple')
+    s1 = ListV([it.construct(VT0, [ListV([K(7)])], {}), it.construct(VT0, [ListV([])], {})])
+    s2 = ListV([it.construct(VT0, [ListV([])], {}), it.construct(VT0, [ListV([K(8), K(9)])], {}), it.construct(VT0, [ListV([K(1)])], {})])
+    try:
+        c1 = it.call(Bound(prog.cls('VmStack'), ser0), [s1], {})
+        c2 = it.call(Bound(prog.cls('VmStack'), ser0), [s2], {})
+        b1 = it.call(Bound(prog.cls('VmStack'), des0), [cm.call_method(it, c1, 'begin_parse')], {})
+        k1 = [vkey(it, v) for v in b1.items]
+        b2 = it.call(Bound(prog.cls('VmStack'), des0), [cm.call_method(it, c2, 'begin_parse')], {})
+        k2 = [vkey(it, v) for v in b2.items]
+        k1_after = [vkey(it, v) for v in b1.items]
+        ok = k1 == [vkey(it, v) for v in s1.items] and k2 == [vkey(it, v) for v in s2.items] and k1_after == k1
+        why = 'both parses return the stored values and the first result is unchanged by the second parse' if ok else \
+            f'first parse {str(k1)[:80]}, second parse {str(k2)[:120]} (stored {str([vkey(it, v) for v in s2.items])[:120]}), first result afterwards {str(k1_after)[:80]}: state is shared between parses'
+    except RaiseEx as e:
+        ok, why = False, f'raises {e}'
+    run.check(ok, 'D4', 'VmStack.deserialize[history]' if not ok else 'history: two parses in one process', why, w)
     def build(it, extra):
         VT = prog.cls('VmTuple')
         inner = it.construct(VT, [ListV([K(5)] + ([K(42)] if extra else []))], {})
